@@ -199,6 +199,65 @@ def producer_rules(prog, res):
     res.need(R2, 2)
 
 
+PRE_VALIDATION = ("blockSize_explicitDelimiter", "ZSTD_fastSequenceLengthSum", "determine_blockSize", "ZSTD_postProcessSequenceProducerResult")
+
+
+def wide_length_arithmetic(prog, res):
+    """T12: the functions that size a block from caller-supplied sequences run before any length has been bounded; their
+    arithmetic on litLength / matchLength (32-bit fields) must be carried out in a 64-bit type, otherwise two large lengths
+    wrap to a small sum and pass every size test."""
+    R = "T12.wide-length-arithmetic"
+
+    def is32(t):
+        t = (t or "").replace("const", "").strip()
+        return t in ("unsigned int", "U32", "unsigned", "int", "uint32_t")
+    n = 0
+    for name in PRE_VALIDATION:
+        f = prog.fn(name)
+        ltypes = {}
+        for b, i, r in f.roots():
+            for x in walk(r):
+                if x.get("k") == "decl":
+                    for v in x.get("vars", []):
+                        ltypes[v["n"]] = v.get("t")
+
+        def seq_len(e, depth=2):
+            """(is a sequence length, its type)"""
+            e = f.resolve_x(e)
+            if e is None:
+                return False, None
+            if e.get("k") == "cast":
+                ok, _ = seq_len(e["e"], depth)
+                return ok, e.get("t")
+            if e.get("k") == "mem" and e.get("rec") == "ZSTD_Sequence" and e.get("f") in ("litLength", "matchLength"):
+                return True, e.get("t")
+            if e.get("k") == "ref" and e.get("rk") in ("l", "sl") and depth > 0:
+                d = f.single_def(e["n"])
+                ok, _ = seq_len(d, depth - 1) if d is not None else (False, None)
+                return ok, ltypes.get(e["n"]) or e.get("t")
+            return False, None
+        for b, i, r in f.roots():
+            for x in walk(r):
+                if x.get("k") == "bin" and x.get("op") == "+" and "v" not in x:
+                    (la, lt), (ra, rt) = seq_len(x["lhs"]), seq_len(x["rhs"])
+                    if la and ra:
+                        n += 1
+                        res.check(not (is32(lt) and is32(rt)), R, "%s:sum@%s" % (name, x.get("l")), "%s:%s" % (f.file, x.get("l")), "sum of two sequence lengths computed in a 64-bit type",
+                                  "%s adds two caller-supplied 32-bit lengths in 32-bit arithmetic: 0x80000000 + 0x80000004 is 4, which passes every block-size test" % name)
+                elif x.get("k") == "asg" and x.get("op") == "+=":
+                    ra, rt = seq_len(x["rhs"])
+                    if not ra:
+                        # rhs may itself be a (checked above) sum
+                        ra = any(seq_len(y)[0] for y in walk(x["rhs"]) if y.get("k") in ("mem", "ref"))
+                    if ra:
+                        l = strip_casts(x["lhs"])
+                        lt = ltypes.get(l.get("n")) or l.get("t")
+                        n += 1
+                        res.check(not is32(lt), R, "%s:accumulator@%s" % (name, x.get("l")), "%s:%s" % (f.file, x.get("l")), "sequence lengths accumulated into a 64-bit variable (%s)" % (lt,),
+                                  "%s accumulates caller-supplied sequence lengths into a 32-bit variable: the total wraps and an over-long list passes the size test" % name)
+    res.need(R, 4)
+
+
 def run(tier):
     res = Result("C17", tier)
     tus, info = extract(["compress", "common"])
@@ -208,6 +267,7 @@ def run(tier):
     validator_rules(prog, res)
     ordering_rules(prog, res)
     producer_rules(prog, res)
+    wide_length_arithmetic(prog, res)
     # frozen guards of lib/compress for the error codes this property owns (shared inventory, split by code)
     import json as _json, os as _os
     from ..rules import guards as _guards
